@@ -176,6 +176,11 @@ def build(sw):
         u2 = content("ascii", [1, 5, 9][plen % 3], rnd).replace(b":", b"_")
         sw.add("htdigest", dict(fmt="htdigest"), dict(password=content(sw.kinds(plen)[0], plen, rnd), user=u2, realm=realm),
                lambda h, pw, u2=u2, realm=realm: h.hash(pw, user=u2.decode(), realm=realm.decode()), ctx=dict(user=u2.decode(), realm=realm.decode()))
+        # htdigest with another file encoding: user, realm and password are all in that encoding
+        for enc in ("latin-1", "cp1252"):
+            ut, rt_, pt = "us\xe9r", "r\xe9alm \xfc", "p\xe4ss\xf6" + "x" * (plen % 5)
+            sw.add("htdigest", dict(fmt="htdigest"), dict(password=pt.encode(enc), user=ut.encode(enc), realm=rt_.encode(enc)),
+                   lambda h, pw, ut=ut, rt_=rt_, pt=pt, enc=enc: h.hash(pt, user=ut, realm=rt_, encoding=enc), ctx=dict(user=ut, realm=rt_, encoding=enc), label="htdigest/" + enc)
         for name, tag, alg in (("django_salted_sha1", "sha1$", "sha1"), ("django_salted_md5", "md5$", "md5")):
             salt = salt_text([1, 12, 22][plen % 3], "abcdefghijklmnopqrstuvwxyzABCDEFGHIJKLMNOPQRSTUVWXYZ0123456789")
             sw.add(name, dict(fmt="django_salted", tag=tag, alg=alg), dict(password=content(sw.kinds(plen)[0], plen, rnd), salt=salt.encode()),
@@ -426,7 +431,8 @@ def providers(chk, quick, rnd):
             "sha256_crypt": lambda: "$5$rounds=%d$" % rnd.choice([1000, 1234, 5000]) + "".join(rnd.choice(H64) for _ in range(rnd.choice([1, 16]))),
             "sha512_crypt": lambda: "$6$" + "".join(rnd.choice(H64) for _ in range(16)),
             "bcrypt": lambda: "$2b$04$" + "".join(rnd.choice(B64BC) for _ in range(21)) + ".",
-            "sun_md5_crypt": lambda: "$md5,rounds=%d$" % rnd.choice([1, 10]) + "".join(rnd.choice(H64) for _ in range(8)) + "$",
+            # sun_md5_crypt in all four spellings of its configuration: with / without rounds, salt closed by "$" or bare
+            "sun_md5_crypt": lambda: rnd.choice(["$md5,rounds=%d$" % rnd.choice([1, 10]), "$md5$"]) + "".join(rnd.choice(H64) for _ in range(8)) + rnd.choice(["$", ""]),
             "bsd_nthash": lambda: "$3$"}
     for name, mk in cfgs.items():
         h = registry.get_crypt_handler(name)
